@@ -4,7 +4,7 @@ import json,glob,os,re
 rows=[]; det=nd=0; ben=0; disc=0
 def key(d):
     n=os.path.basename(d); m=re.match(r'(C\d+)-(r2)?m?(\d*)',n); return (n[:3], 'r2' in n, n)
-for d in sorted(glob.glob('/verif/seeded/*'),key=key):
+for d in sorted([x for x in glob.glob('/verif/seeded/*') if os.path.isdir(x)],key=key):
     n=os.path.basename(d); m=json.load(open(d+'/meta.json'))
     if m.get('benign'):
         ben+=1; rows.append(f"| {n} | {m['property']} | benign: {'stays quiet' if m.get('expected_verdict','no')=='no' else 'load error (exit 2)'} | {m['what']} | {m['expected']} |"); continue
